@@ -52,7 +52,7 @@ class PoolWorld(World):
     STUB = ["threading.Event/Lock (simulated, baton scheduler)", "time (virtual clock)",
             "sockets + selector (in-memory)", "Worker.__hash__ (index based)", "jobs (scripted durations)"]
     PROBES = ["thread_start_failed", "commtimeout_none", "pool_resized_live", "wall_clock_stepped_back_during_close", "refused", "worker_retired", "worker_created", "close_with_running_jobs", "preempted",
-              "server_layer", "refused_on_wire", "worker_reused", "close_races_submission", "submit_after_close_refused", "stalled", "silent_client", "job_raised", "closed_during_housekeeper_round", "proxy_client", "proxy_client_refused"]
+              "server_layer", "refused_on_wire", "worker_reused", "close_races_submission", "submit_after_close_refused", "stalled", "silent_client", "job_raised", "closed_during_housekeeper_round", "proxy_client", "proxy_client_refused", "job_ended_with_systemexit"]
     RULE = ("plan = (layer, THREADPOOL_SIZE, THREADPOOL_SIZE_MIN, per job: duration and gap before the next "
             "submission, optional close time, pre-emption probabilities); distinct = distinct interleaving digest "
             "(sequence of thread switches, pre-emption sites and socket events); non-trivial = at least one "
@@ -78,6 +78,8 @@ class PoolWorld(World):
                 dur = rng.choice([0, 0.01, 0.1, 0.5])
                 gap = rng.choice([0, 0, 0.01, 0.1, 0.6])
             jobs.append({"dur": dur, "gap": gap, "calls": rng.randint(0, 2), "raises": layer == "pool" and rng.random() < 0.15})
+            if jobs[-1]["raises"] and rng.random() < 0.3:
+                jobs[-1]["raises"] = "exit"     # ... with SystemExit (a served method called sys.exit()): no Exception, yet the job is over
         commt = 0.0
         if layer == "server" and rng.random() < 0.35:
             # a configured communication timeout, and clients that connect and then say nothing for a long time: the
@@ -250,6 +252,9 @@ class PoolWorld(World):
                 else:
                     sched.yield_point("job")
                 running[0] -= 1
+                if s.raises == "exit":
+                    ctx.probe("job_ended_with_systemexit")
+                    raise SystemExit(0)
                 if s.raises:
                     ctx.probe("job_raised")
                     raise RuntimeError("job %d failed" % s.i)     # a job that ends with an exception is over, too
